@@ -127,6 +127,9 @@ func H_roundtrip(msg, ctx, cat int) {
 		src = "{namespace n}\n" + c11Doc + "{template .t}\n[" + m + "]{$n}{$l}{$a}{$b}{$c}{$x_1}\n{/template}\n"
 	case 1:
 		src = "{namespace n}\n" + c11Doc + "{template .t}\n{foreach $i in $l}{$i}:" + m + ";{/foreach}{$n}{$a}{$b}{$c}{$x_1}\n{/template}\n"
+	case 3:
+		// the message twice in one template (same id), the second after other output
+		src = "{namespace n}\n" + c11Doc + "{template .t}\n[" + m + "]{$n}{$l}{$a}{$b}{$c}{$x_1}\n{/template}\n"
 	case 2:
 		src = "{namespace n}\n" + c11Doc + "{template .t}\n<{call .u data=\"all\" /}>\n{/template}\n" + c11Doc + "{template .u}\n" + m + "{$n}{$l}{$a}{$b}{$c}{$x_1}\n{/template}\n"
 	}
@@ -365,4 +368,35 @@ func H_catalogue(perm int) {
 	verifObserve("translated", got)
 	verifAssert(rerr == nil, "C11: render with the identity catalogue failed")
 	verifAssert(got == plain, "C11: identity catalogue does not render the source text")
+}
+
+
+// H_sameID: two messages with the same text and placeholder names (hence the same id) but
+// different expressions, in one template; under the identity catalogue each renders its own
+// expression.
+func H_sameID(v int) {
+	pairs := [][2]string{{"$a.x", "$c.x"}, {"$c.x", "$a.x"}, {"$c.x", "$c.x"}}
+	e1, e2 := pairs[v][0], pairs[v][1]
+	src := "{namespace n}\n" + c11Doc + "{template .t}\n{msg desc=\"d\"}Hello {" + e1 + "}!{/msg}|{msg desc=\"e\"}Hello {" + e2 + "}!{/msg}|{$n}{$l}{$a.x}{$b}{$c.x}{$x_1}\n{/template}\n"
+	if v == 2 {
+		// same base name X for both: $c.x and ... use field access on both sides
+		src = "{namespace n}\n" + c11Doc + "{template .t}\n{msg desc=\"d\"}Hello {$c.x}!{/msg}|{foreach $i in $l}{msg desc=\"e\"}Hello {$c.x}!{/msg}{/foreach}|{$n}{$a.x}{$b}{$x_1}\n{/template}\n"
+	}
+	reg, tofu := c11Registry(src)
+	dm := c11Data()
+	plain, perr := c11Render(tofu, "n.t", dm, nil)
+	verifAssert(perr == nil, "harness: render without catalogue failed")
+	verifObserve("plain", plain)
+	var msgs []*ast.MsgNode
+	for _, t := range reg.Templates {
+		c11FindMsgs(t.Node, &msgs)
+	}
+	b := &bundle{messages: map[uint64]soymsg.Message{}, locale: "xx", pluralize: func(n int) int { return 0 }}
+	for _, node := range msgs {
+		b.messages[node.ID] = newMessage(node.ID, "", []string{Msgid(node)})
+	}
+	got, err := c11Render(tofu, "n.t", dm, b)
+	verifObserve("translated", got)
+	verifAssert(err == nil, "C11: render with the identity catalogue failed")
+	verifAssert(got == plain, "C11: identity catalogue does not render the source text (messages sharing an id)")
 }
